@@ -132,7 +132,6 @@ LongCases ==
 
 Cases == (IF "pair" \in Fams THEN PairCases ELSE {}) \cup (IF "each" \in Fams THEN EachCases ELSE {})
          \cup (IF "rand" \in Fams THEN RandCases ELSE {}) \cup (IF "long" \in Fams THEN LongCases ELSE {})
-Next == UNCHANGED vars
 \* extension degree of E for a case
 DegOf(c) == CASE c.fam = "pair" -> 1 + ((c.i + 2 * c.j) % 3)
               [] c.fam = "each" -> 1 + (c.i % 3)
@@ -183,20 +182,25 @@ Build(c) ==
     [] c.fam = "rand" -> BuildRand(c, c.P, c.L, DegOf(c))
     [] c.fam = "long" -> BuildLong(c, c.P, c.L, DegOf(c))
 
-Init == case \in Cases /\ built = Build(case)
+\* TLC computes initial states in one thread; the assertion set is therefore built in the single step
+\* every case takes (steps are distributed over the workers) and the invariants speak about built cases
+NotBuilt == <<>>
+Init == case \in Cases /\ built = NotBuilt
+Next == built = NotBuilt /\ built' = Build(case) /\ UNCHANGED case
 Spec == Init /\ [][Next]_vars
+Built == built # NotBuilt
 
 (***************************************************************************)
 (* design-level invariants                                                 *)
 (***************************************************************************)
-Valid == LET b == built IN
+Valid == Built => LET b == built IN
   /\ Len(b.main) >= 1
   /\ ValidList(b.main, b.mw, case.L)
   /\ ValidList(b.aux, b.aw, case.L)
 
 AllA(b) == b.main \o b.aux
 \* the value polynomial takes the asserted values at the asserted points
-ValueInterp ==
+ValueInterp == Built =>
   LET b == built  L == case.L  P == case.P  dom == TraceDomain(P, L) IN
   \A i \in 1..Len(AllA(b)) :
     LET a == AllA(b)[i]
@@ -206,7 +210,7 @@ ValueInterp ==
     IN \A j \in 1..Len(ss) : got[j] = ValAt(a, j)
 \* the documented closed form of the divisor is the product over the asserted points (sampled points
 \* for long step lists)
-DocDivisor ==
+DocDivisor == Built =>
   LET b == built  L == case.L  P == case.P  dom == TraceDomain(P, L) IN
   \A i \in 1..Len(AllA(b)) :
     LET a == AllA(b)[i]
@@ -248,31 +252,49 @@ Scenario(c) ==
       dom == TraceDomain(P, L)
       w2 == RootOfUnity(P, Log2(2 * L))
       ncos == IF L <= 32 THEN 2 * L ELSE 12
-      \* LDE coset points (all of them for small L, a seeded sample for long traces)
-      coset == Mat([i \in 1..ncos |-> FMul(P, Gen(P), FPow(P, w2, IF L <= 32 THEN i - 1 ELSE Rnd(st, 100 + i) % (2 * L)))], ncos)
+      \* LDE coset points Gen * w^i, w the 2L-th root (all of them for small L, a seeded sample for long
+      \* traces); with blowup 2 these are the points of the constraint evaluation domain, cidx their steps
+      cidx == Mat([i \in 1..ncos |-> IF L <= 32 THEN i - 1 ELSE Rnd(st, 100 + i) % (2 * L)], ncos)
+      coset == Mat([i \in 1..ncos |-> FMul(P, Gen(P), FPow(P, w2, cidx[i]))], ncos)
+      cl == Mat([i \in 1..ncos |-> Lift(<<coset[i]>>, d)], ncos)
       \* out-of-domain points in E: a coset point (never on the trace domain) and a seeded one
       ood == IF d = 1 THEN << <<coset[2]>>, <<coset[ncos]>> >>
              ELSE << Lift(<<coset[2]>>, d), [t \in 1..d |-> IF t = 2 THEN 1 + (Rnd(st, 5) % (P - 1)) ELSE Rnd(st, 5 + t) % P] >>
+      allx == ood \o cl
       mstate == Mat([k \in 1..b.mw |-> RElem(P, d, st, 400 + k)], b.mw)
       astate == Mat([k \in 1..b.aw |-> RElem(P, d, st, 420 + k)], b.aw)
+      \* an execution trace for the prover's constraint evaluator: every column is a sparse polynomial
+      \* (4 terms) T; the column holds T(g^s), and T is known at every coset point
+      TPoly(seg, col, dv) == Mat([t \in 1..4 |-> [pos |-> Rnd(st, 600 + 40 * seg + 4 * col + t) % L,
+                                                 val |-> RElem(P, dv, st, 700 + 40 * seg + 4 * col + t)]], 4)
+      TAt(tp, x, dv) == LET RECURSIVE S(_)
+                            S(t) == IF t > Len(tp) THEN EZero(dv) ELSE EAdd(P, EMulBase(P, tp[t].val, FPow(P, x, tp[t].pos)), S(t + 1))
+                        IN S(1)
+      mtp == Mat([k \in 1..b.mw |-> TPoly(0, k, 1)], b.mw)
+      atp == Mat([k \in 1..b.aw |-> TPoly(1, k, d)], b.aw)
       cc == CCs(P, d, nm + na, st)
-      Row(a, state) ==
+      Row(a, state, tps, dv) ==
         LET ss == StepSeq(a, L)
-            bx == BAtAll(P, L, a, ood)
+            bx == BAtAll(P, L, a, allx)
+            no == Len(ood)
         IN [a |-> AJson(a), steps |-> ss,
             xs |-> [j \in 1..Len(ss) |-> dom[ss[j] + 1]],
             want |-> [j \in 1..Len(ss) |-> JE(ValAt(a, j))],
             zc |-> [i \in 1..ncos |-> ZSteps(P, dom, ss, <<coset[i]>>)[1]],
-            zx |-> [t \in 1..Len(ood) |-> JE(ZSteps(P, dom, ss, ood[t]))],
+            zx |-> [t \in 1..no |-> JE(ZSteps(P, dom, ss, ood[t]))],
             \* C_a(x_t, state[col]) = state[col] - b_a(x_t)
-            num |-> [t \in 1..Len(ood) |-> JE(ESub(P, state[a.col + 1], bx[t]))]]
+            num |-> [t \in 1..no |-> JE(ESub(P, state[a.col + 1], bx[t]))],
+            \* C_a on the coset with the trace polynomial of the column: T(x_i) - b_a(x_i)
+            cnum |-> [i \in 1..ncos |-> JE(ESub(P, Lift(TAt(tps[a.col + 1], coset[i], dv), d), bx[no + i]))]]
   IN IF Distinct(cc)
        THEN [P |-> P, d |-> d, L |-> L, fam |-> c.fam, mw |-> b.mw, aw |-> b.aw,
-             main |-> [i \in 1..nm |-> Row(b.main[i], mstate)],
-             aux |-> [i \in 1..na |-> Row(b.aux[i], astate)],
+             main |-> [i \in 1..nm |-> Row(b.main[i], mstate, mtp, 1)],
+             aux |-> [i \in 1..na |-> Row(b.aux[i], astate, atp, d)],
              mperms |-> Perms(nm, st), aperms |-> Perms(na, st + 1),
-             cc |-> JP(cc), tdom |-> dom, coset |-> coset, ood |-> JP(ood),
+             cc |-> JP(cc), tdom |-> dom, coset |-> coset, cidx |-> cidx, ood |-> JP(ood),
+             mtrace |-> [k \in 1..b.mw |-> [i \in 1..L |-> TAt(mtp[k], dom[i], 1)[1]]],
+             atrace |-> [k \in 1..b.aw |-> [i \in 1..L |-> JE(TAt(atp[k], dom[i], d))]],
              mstate |-> JP(mstate), astate |-> JP(astate)]
        ELSE [fam |-> "error"]
-Emit == PrintT(<<"REPLAY", ToJson(Scenario(case))>>)
+Emit == Built => PrintT(<<"REPLAY", ToJson(Scenario(case))>>)
 =============================================================================
